@@ -381,7 +381,7 @@ fn group_image(prop: &str, i: u64, rng: &mut Rng, out: &mut Outcome, dir: &std::
 
 pub fn run(ctx: &Ctx) -> i32 {
     let dir = ctx.scratch_dir("c17");
-    let n = ctx.budget(400, 15_000) as u64;
+    let n = ctx.budget(1500, 30_000) as u64;
     let thorough = ctx.tier == crate::report::Tier::Thorough;
     let out = crate::par::run(ctx, n, std::time::Duration::from_secs(ctx.tier.pick(80, 1200)), |i, rng, out| {
         if i % 5 == 4 { group_image(&ctx.prop, i, rng, out, &dir) } else { media_history(&ctx.prop, i, rng, out, &dir, thorough && i % 50 == 0 || i % 97 == 0) }
